@@ -244,7 +244,8 @@ func main() {
 		}
 	}
 	if r.Thorough() {
-		scs = append(scs, scenario(cfg{Total: 1, Endpoint: 1, Paths: "ppppp"}), scenario(cfg{Total: 2, Endpoint: 1, Paths: "pppqq"}))
+		// 5 requests: every event order is ~10^8 executions per setting; the tightest setting only
+		scs = append(scs, scenario(cfg{Total: 1, Endpoint: 1, Paths: "ppppp"}))
 	}
 	sum := mcx.Explore(r, scs, mcx.Config{Wall: ev.Pick(r, 3*time.Minute, 25*time.Minute)})
 	mcx.Report(r, scs, sum)
